@@ -9,6 +9,7 @@ KEYS = ["k1", "k2", "k3"]
 VALS = {"V1": {"a": 1}, "V2": {"a": 2, "n": {"x": [1]}}, "V0": {}}
 LVALS = {"L1": [{"e": 1}], "L2": [{"e": 1}, {"e": 2}], "L0": []}
 CAP = 2
+MAXQ = 2
 TTL = 30
 
 def setup_redis():
@@ -126,8 +127,8 @@ def apply_redis(sut, ref, op, kind):
             st[op[2]]["a"] = 9
             ref[op[2]]["a"] = 9
         elif name == "append":
-            if op[2] not in ref:
-                return "skip"
+            if op[2] not in ref or len(ref[op[2]]) >= 3:
+                return "skip"      # bound: lists of at most 3 members
             st[op[2]].append({"e": 9})
             ref[op[2]].append({"e": 9})
         elif name == "get":
@@ -180,10 +181,18 @@ def apply_redis(sut, ref, op, kind):
         return ("raises-%s" % type(e).__name__, "%r raised %s: %s" % (op, type(e).__name__, e))
     return None
 
-def bfs_redis(kind, tier):
+def bfs_redis(kind, tier, config="symmetric"):
+    global KEYS, CAP, MAXQ
+    if config == "asymmetric":
+        # closed configuration: client 0 reads / caches / writes, client 1 only writes
+        KEYS, CAP, MAXQ = (["k1", "k2"], 1, 1) if tier == "quick" else (["k1", "k2", "k3"], 2, 2)
+    else:
+        KEYS, CAP, MAXQ = ["k1", "k2", "k3"], 2, 2
     sut = RedisSut(kind)
     ops = redis_ops(kind)
-    max_states = 1500 if tier == "quick" else 60000
+    if config == "asymmetric":
+        ops = [o for o in ops if len(o) < 2 or o[1] == 0 or o[0] in ("set", "delete", "nested", "append")]
+    max_states = (1500 if tier == "quick" else 60000) if config == "symmetric" else 400000
     seen = {}
     start = (sut.snapshot(), {}, [])
     seen[sut.canon() + json.dumps({}, sort_keys=True)] = 0
@@ -209,6 +218,8 @@ def bfs_redis(kind, tier):
                     v = None
                 else:
                     v = apply_redis(sut, r2, op, kind)
+                    if any(len(q) > MAXQ for q in sut.server.pending.values()):
+                        continue      # bound: at most MAXQ undelivered invalidation messages per client
                 if v == "skip":
                     continue
                 transitions += 1
@@ -241,7 +252,7 @@ def bfs_redis(kind, tier):
                 if v not in (None, "skip"):
                     findings["store|%s|%s|after-real-reopen" % (kind, v[0])] = (v[1], [["reopen-for-real"], [opn, c, k]])
     sut.close()
-    return {"kind": kind, "states": states, "transitions": transitions, "findings": findings, "capped": capped, "distinct": len(seen)}
+    return {"kind": kind + "/" + config, "states": states, "transitions": transitions, "findings": findings, "capped": capped, "distinct": len(seen)}
 
 # ------------------------------------------------------------------------------------------------------
 def bfs_local(kind, tier):
@@ -356,19 +367,19 @@ def factories(cr):
     return n
 
 def _job(args):
-    kind, tier = args
-    return bfs_redis(kind, tier) if kind.startswith("redis") else bfs_local(kind, tier)
+    kind, tier = args[0], args[1]
+    return bfs_redis(kind, tier, args[2]) if kind.startswith("redis") else bfs_local(kind, tier)
 
 def run(tier, seed):
     cr = common.CheckResult(PROP)
-    kinds = ["json", "simple", "redis-dict", "redis-list"]
+    jobs = [("json", tier), ("simple", tier)] + [(k, tier, c) for k in ("redis-dict", "redis-list") for c in ("asymmetric", "symmetric")]
     ctx = multiprocessing.get_context("fork")
-    with ctx.Pool(4) as pool:
-        outs = pool.map(_job, [(k, tier) for k in kinds])
+    with ctx.Pool(6) as pool:
+        outs = pool.map(_job, jobs)
     nf = factories(cr)
     for o in outs:
         for sig, (detail, path) in o["findings"].items():
-            cr.add(sig, "%s store, after %s: %s" % (o["kind"], json.dumps(path[:-1]), detail), {"kind": "store", "property": PROP, "signature": sig, "store": o["kind"], "path": path}, size=len(path))
+            cr.add(sig, "%s store, after %s: %s" % (o["kind"], json.dumps(path[:-1]), detail), {"kind": "store", "property": PROP, "signature": sig, "store": o["kind"].split("/")[0], "path": path}, size=len(path))
     cr.coverage = {
         "states": sum(o["states"] for o in outs), "transitions": sum(o["transitions"] for o in outs) + nf,
         "traces_validated_against_impl": sum(o["transitions"] for o in outs),
